@@ -266,6 +266,7 @@ def rule_r3(chk):
     src = unparse(ss).replace(" ", "")
     ok = "forkinself._serialized_slots:" in src and "setattr(self,k,state[k])" in src and src.rstrip().endswith("self._populate_derived_attributes()")
     chk.ob("C20-R3", "simultaneous._invariants.Invariant.__setstate__", ok, "restores the serialized slots, then rebuilds the derived ones", im.loc(ss))
+    _restore_is_verbatim(chk, im, "Invariant", ss, ser)
     # derived slots assigned transitively
     pd = im.func("Invariant._populate_derived_attributes")
     chk.saw(im, "Invariant._populate_derived_attributes")
@@ -308,6 +309,7 @@ def rule_r3(chk):
     src = unparse(ss).replace(" ", "")
     ok = "forninself._state_slots:" in src and "setattr(self,n,state[n])" in src and "self._create_function()" in src
     chk.ob("C20-R3", "equators.plain.PlainEquator.__setstate__", ok, "restores state slots and recreates the function", pm.loc(ss))
+    _restore_is_verbatim(chk, pm, "PlainEquator", ss, st)
     cf = pm.func("PlainEquator._create_function")
     rebuilt = {x.attr for n in ast.walk(cf) if isinstance(n, ast.Assign) for t in n.targets for x in ast.walk(t)
                if isinstance(x, ast.Attribute) and isinstance(x.value, ast.Name) and x.value.id == "self"}
@@ -354,6 +356,34 @@ def rule_r3(chk):
             omitted = omitted and rebuilt
         chk.ob("C20-R3", f"{short}.{oc}.{attr}[callable in pickled state]", omitted,
                f"{how}; omitted by __getstate__ and rebuilt by __setstate__" if omitted else f"{how} is part of the pickled state", mod.loc(node))
+
+
+def _restore_is_verbatim(chk, mod, cls, setstate, serialized):
+    """after the restore loop, a serialized slot is not overwritten - except by a merge in which the restored value wins"""
+    short = mod.name.replace("irispie.", "")
+    stores = []
+    for n in ast.walk(setstate):
+        ts = n.targets if isinstance(n, ast.Assign) else [n.target] if isinstance(n, ast.AugAssign) else []
+        for t in ts:
+            if isinstance(t, ast.Attribute) and isinstance(t.value, ast.Name) and t.value.id == "self" and t.attr in serialized:
+                stores.append((t.attr, n))
+    verdict, detail = True, f"no serialized slot of {cls} is re-assigned after it was restored from the state"
+    for attr, n in stores:
+        v = n.value
+        me = f"self.{attr}"
+
+        def is_me(x):
+            return unparse(x) == me or (isinstance(x, ast.BoolOp) and isinstance(x.op, ast.Or) and unparse(x.values[0]) == me)
+        if isinstance(n, ast.Assign) and isinstance(v, ast.BinOp) and isinstance(v.op, ast.BitOr) and is_me(v.right) and not is_me(v.left):
+            continue                          # defaults | restored: restored keys win
+        if isinstance(n, ast.Assign) and isinstance(v, ast.Dict) and v.keys and v.keys[-1] is None and is_me(v.values[-1]):
+            continue                          # {**defaults, **restored}
+        if isinstance(n, ast.Assign) and isinstance(v, ast.BinOp) and isinstance(v.op, ast.BitOr) and is_me(v.left):
+            verdict, detail = False, (f"line {n.lineno}: {unparse(n)[:90]} - in a dict merge the RIGHT operand wins, so the restored {attr} is "
+                                      "overwritten by the other operand (a copy/unpickled model silently loses its own settings)")
+            break
+        verdict, detail = None, f"line {n.lineno}: serialized slot {attr} is re-assigned in __setstate__: {unparse(n)[:80]}"
+    chk.ob("C20-R3", f"{short}.{cls}.__setstate__[restore is verbatim]", verdict, detail, mod.loc(setstate))
 
 
 def rule_r4(chk):
@@ -472,11 +502,49 @@ def rule_r4(chk):
         chk.ob("C20-R4", f"simultaneous.main.Simultaneous.portable[{k}]", k in read, f"key {k!r} {'read' if k in read else 'never read'}", sm.loc(fp))
 
 
+VARIANT_PARAMS = ("variant", "variants", "vid", "variant_id")
+UNUSED_VARIANT_PARAM_OK = {
+    ("irispie.sequentials._simulate", "_simulate_v", "vid"): "the data slate handed in is already the variant's; vid is kept for a uniform dispatch signature",
+    ("irispie.simultaneous._steady", "_steady_linear", "vid"): "works on the variant object it is given; vid only mirrors _steady_nonlinear's signature",
+    ("irispie.stackers.main", "Stacker._extract_data_arrays", "variant"): "the data array handed in is already the variant's",
+}
+
+
+def rule_r5(chk):
+    chk.rule("C20-R5", "variant selection is honoured: every function with a variant-selecting parameter (variant, variants, vid, variant_id) "
+             "reads it somewhere in its body (an ignored selector answers from variant 0 for every variant); three named exceptions "
+             "receive data that is already per-variant", floor=30)
+    n_used = 0
+    for m in chk.repo.modules.values():
+        for q, f in m.functions():
+            ps = [p_ for p_ in all_params(f) if p_ in VARIANT_PARAMS]
+            if not ps:
+                continue
+            body = strip_docstring(f.body)
+            trivial = all(isinstance(st, (ast.Pass, ast.Raise)) or (isinstance(st, ast.Expr) and isinstance(st.value, ast.Constant)) for st in body)
+            if trivial:
+                continue
+            for p_ in ps:
+                used = any(isinstance(x, ast.Name) and x.id == p_ for st in body for x in ast.walk(st))
+                key = (m.name, q, p_)
+                short = m.name.replace("irispie.", "")
+                if used:
+                    n_used += 1
+                    chk.ok("C20-R5", f"{short}.{q}[{p_}]", "selector is read", m.loc(f))
+                elif key in UNUSED_VARIANT_PARAM_OK:
+                    chk.ok("C20-R5", f"{short}.{q}[{p_}]", f"unused by design: {UNUSED_VARIANT_PARAM_OK[key]}", m.loc(f))
+                else:
+                    chk.bad("C20-R5", f"{short}.{q}[{p_}]", f"parameter {p_!r} is never read: the caller's choice of variant is ignored "
+                            "(typically variant 0 answers for all)", m.loc(f))
+                chk.saw(m, q)
+
+
 def run(chk):
     rule_r1(chk)
     rule_r2(chk)
     rule_r3(chk)
     rule_r4(chk)
+    rule_r5(chk)
     chk.assumptions = [
         "ndarray.copy / dict.copy of scalars / deepcopy produce independent values",
         "behavioural equivalence of a copy (steady state, solution, simulation) is numerical and not decided",
